@@ -145,11 +145,16 @@ def write_replay(path, q, fields, prop):
             f.write('%s %s\n' % (k, v.hex()))
 
 
+def link_paths(sc, q):
+    """linked translation units: cJSON.c goes through the wrapper harness/lib_cjson.c (same libc models as the harness TU)"""
+    return [os.path.join(ROOT, 'harness', 'lib_cjson.c') if l == 'cJSON.c' else os.path.join(sc.src, l) for l in q.get('link', [])]
+
+
 def native_build(sc, q, tag):
     exe = os.path.join(sc.dir, 'native_' + tag)
     cmd = ['gcc', '-g', '-O0', '-w', '-fsanitize=address,undefined', '-fno-sanitize-recover=undefined', '-fno-omit-frame-pointer',
            '-DVF_NATIVE'] + LIB_DEFS + q.get('defs', []) + ['-I', sc.src, '-I', os.path.join(ROOT, 'include'),
-           os.path.join(ROOT, q['src'])] + [os.path.join(sc.src, l) for l in q.get('link', [])] + ['-lm', '-o', exe]
+           os.path.join(ROOT, q['src'])] + link_paths(sc, q) + ['-lm', '-o', exe]
     rc, out, err, to, dt = sh(cmd, timeout=120)
     if rc != 0:
         return None, err
@@ -194,7 +199,7 @@ def run_query(sc, q, args):
     t0 = time.time()
     gb = os.path.join(sc.dir, tag + '.gb')
     cc = ['goto-cc'] + LIB_DEFS + q.get('defs', []) + ['-I', sc.src, '-I', os.path.join(ROOT, 'include'),
-          os.path.join(ROOT, q['src'])] + [os.path.join(sc.src, l) for l in q.get('link', [])] + ['-o', gb]
+          os.path.join(ROOT, q['src'])] + link_paths(sc, q) + ['-o', gb]
     if q.get('export_file_local'):
         cc.insert(1, '--export-file-local-symbols')
     rc, out, err, to, dt = sh(cc, timeout=300)
